@@ -29,16 +29,11 @@ Import ListNotations.
 Theorem heap_refines_forest : forall caching s F o,
   Rep caching s F -> pre_b caching s F o = true ->
   exists s' ret, step caching s o = Ok (s', ret) /\ Rep caching s' (aeffect s F o).
-Proof.
-  intros caching s F o HR Hpre.
-  assert (HA : AcqInv (mkSt (heap s) (pool s) (next_id s) (next_addr s)) []) by
-    (split; [constructor|split]; [intros x Hx; inversion Hx|intros a _ Hx; inversion Hx]).
-  destruct s. destruct (step_preserves caching _ F [] o HR HA Hpre) as (s' & ret & H1 & H2 & _). eauto.
-Qed.
+Proof. exact heap_refines_forest_pf. Qed.
 
 (* ... hence by induction over arbitrary operation histories: *)
 Theorem reachable_rep : forall caching s F acq, reachable caching s F acq -> Rep caching s F.
-Proof. intros caching s F acq H. exact (proj1 (reachable_inv caching s F acq H)). Qed.
+Proof. exact reachable_rep_pf. Qed.
 
 (* A history given as a list fails only where a precondition is violated: no panic, no fuel
    exhaustion in recycle, and every offered pool choice is one the model accepts. *)
@@ -52,7 +47,7 @@ Proof. exact run2_total. Qed.
 (* The executable abstraction function reads the represented tree back from the heap. *)
 Theorem abs_reads_forest : forall caching s F acq t,
   reachable caching s F acq -> t ∈ F -> abs s (root t) = Some t.
-Proof. intros caching s F acq t H. apply (abs_rep caching). exact (proj1 (reachable_inv _ _ _ _ H)). Qed.
+Proof. exact abs_reads_forest_pf. Qed.
 
 (* (2) In every reachable state the pool holds no address twice, no pooled address is live, and
    no link of a live node leads out of the live forest (so none leads to a pooled node). *)
@@ -63,25 +58,12 @@ Theorem pool_disjoint_nodup : forall caching s F acq,
   (forall a x b, a ∈ addrs_f F -> heap s !! a = Some x ->
      (n_parent x = Some b \/ n_first x = Some b \/ n_last x = Some b \/ n_prev x = Some b \/ n_next x = Some b) ->
      b ∈ addrs_f F /\ b ∉ pool s).
-Proof.
-  intros caching s F acq H. destruct (reachable_inv _ _ _ _ H) as [HR _].
-  pose proof (R_nodup _ _ _ HR) as Hnd. apply NoDup_app in Hnd as (H1 & H2 & H3).
-  split; [exact H3|split].
-  - intros a Ha HaF. exact (H2 a HaF Ha).
-  - intros a x b Ha Hx Hb.
-    destruct (rep_links_closed _ _ _ HR a x Ha Hx) as (L1 & L2 & L3 & L4 & L5).
-    assert (HbF : b ∈ addrs_f F).
-    { destruct Hb as [E|[E|[E|[E|E]]]]; rewrite E in *; simpl in *; assumption. }
-    split; [exact HbF|exact (H2 b HbF)].
-Qed.
+Proof. exact pool_disjoint_nodup_pf. Qed.
 
 (* No live node occurs twice in the forest: trees are acyclic and share nothing. *)
 Theorem live_forest_nodup : forall caching s F acq,
   reachable caching s F acq -> NoDup (addrs_f F).
-Proof.
-  intros caching s F acq H. destruct (reachable_inv _ _ _ _ H) as [HR _].
-  pose proof (R_nodup _ _ _ HR) as Hnd. apply NoDup_app in Hnd as (H1 & _). exact H1.
-Qed.
+Proof. exact live_forest_nodup_pf. Qed.
 
 (* A node returned by create - fresh or pooled, whatever the choice - has no links, the
    requested type and data and the requested format-specific value (nil for CreateNode). *)
@@ -89,20 +71,17 @@ Theorem fresh_blank : forall caching s F acq c ty data fs s' a,
   reachable caching s F acq ->
   create caching s c ty data fs = Ok (s', a) ->
   exists id, heap s' !! a = Some (mkNode id None None None None None ty data fs).
-Proof.
-  intros caching s F acq c ty data fs s' a H. destruct (reachable_inv _ _ _ _ H) as [HR _].
-  apply create_blank. intros b Hb. apply (R_blank _ _ _ HR). apply elem_of_list_In. exact Hb.
-Qed.
+Proof. exact fresh_blank_pf. Qed.
 
 (* (3) Over any history the IDs observed at the acquisitions are pairwise distinct ... *)
 Theorem ids_unique : forall caching s F acq, reachable caching s F acq -> NoDup acq.
-Proof. intros caching s F acq H. destruct (reachable_inv _ _ _ _ H) as [_ [HA _]]. exact HA. Qed.
+Proof. exact ids_unique_pf. Qed.
 
 (* ... and at every moment all live and pooled nodes carry pairwise distinct IDs (each reset
    observed an ID no other held node has). *)
 Theorem held_ids_distinct : forall caching s F acq,
   reachable caching s F acq -> NoDup (map (id_of (heap s)) (addrs_f F ++ pool s)).
-Proof. intros caching s F acq H. destruct (reachable_inv _ _ _ _ H) as [HR _]. exact (R_ids _ _ _ HR). Qed.
+Proof. exact held_ids_distinct_pf. Qed.
 
 (* For every interleaving of the goroutines' atomic fetch-and-add steps, all the IDs observed
    are pairwise distinct. *)
